@@ -2,6 +2,7 @@ package decoder
 
 import (
 	"bytes"
+	"context"
 	"encoding"
 	"encoding/json"
 	"reflect"
@@ -131,7 +132,14 @@ func decodeStreamUnmarshalerContext(s *Stream, depth int64, unmarshaler unmarsha
 	dst := make([]byte, len(src))
 	copy(dst, src)
 
-	if err := unmarshaler.UnmarshalJSON(s.Option.Context, dst); err != nil {
+	// like unmarshalJSONDecoder: a call without a context hands the method an empty one, not nil
+	var stdctx context.Context
+	if (s.Option.Flags & ContextOption) != 0 {
+		stdctx = s.Option.Context
+	} else {
+		stdctx = context.Background()
+	}
+	if err := unmarshaler.UnmarshalJSON(stdctx, dst); err != nil {
 		return err
 	}
 	return nil
@@ -165,7 +173,14 @@ func decodeUnmarshalerContext(ctx *RuntimeContext, buf []byte, cursor, depth int
 	dst := make([]byte, len(src))
 	copy(dst, src)
 
-	if err := unmarshaler.UnmarshalJSON(ctx.Option.Context, dst); err != nil {
+	// like unmarshalJSONDecoder: a call without a context hands the method an empty one, not nil
+	var stdctx context.Context
+	if (ctx.Option.Flags & ContextOption) != 0 {
+		stdctx = ctx.Option.Context
+	} else {
+		stdctx = context.Background()
+	}
+	if err := unmarshaler.UnmarshalJSON(stdctx, dst); err != nil {
 		return 0, err
 	}
 	return end, nil
